@@ -1008,7 +1008,13 @@ def apply_contract(ip, st, c, args, kws):
         bind_identity_clause(ip, st, case, env2, cl, old)
     for cl in case.ensures + case.assume_post:
         try:
-            st.assume(eval_spec(ip, st, env2, cl, old=old))
+            t_cl = eval_spec(ip, st, env2, cl, old=old)
+            if t_cl.s == "false" and cl.strip() not in ("False", "false"):
+                # a clause that is proved in the callee's own unit but evaluates to the constant false here (typically an
+                # identity clause about an object the call has just re-created with fresh terms) would make every later
+                # obligation of the caller vacuously true: refused instead of assumed
+                raise U("postcondition `%s` of %s evaluates to false at the call site" % (cl[:80], case.name))
+            st.assume(t_cl)
         except Exception as ex:
             if type(ex).__name__ != "Unsupported":
                 raise
